@@ -7,7 +7,10 @@
 (*    maxpos, maxkw, names, total        the call shapes that were REALLY executed,                 *)
 (*    fb, gb |-> those shapes <<n, keys, ptargets, ktargets>> that CPython bound for f / g, with    *)
 (*                the index of the parameter each positional / keyword argument really landed in,   *)
-(*    chain |-> <<r1, r2, issubclass(cls(r1), cls(r2))>> for the realised type ranks]               *)
+(*    chain |-> <<r1, r2, issubclass(cls(r1), cls(r2))>> for the realised type ranks,               *)
+(*    tc |-> (typed cases) for every shape bound by both: <<n, keys, ok>> -- g was REALLY CALLED with  *)
+(*           instances of the types f declares for the landing parameters, and every annotated       *)
+(*           parameter of g isinstance-checked what it received]                                     *)
 (* TLC validates the oracle model (RefBinds, Ref*Target, TypeContains) against those real outcomes  *)
 (* ("oracle:..."), judges the real verdicts, and compares them with ImplCompat (drift).             *)
 EXTENDS SigCompat, Json, IOUtils
@@ -32,6 +35,11 @@ OracleTargets(sig, bs) ==
         /\ \A m \in 1..Len(bs[j][2]) : RefKeywordTarget(sig, bs[j][2][m]) = bs[j][4][m]
 OracleChain(o) ==
     \A j \in 1..Len(o.chain) : TypeContains(o.chain[j][2], o.chain[j][1]) = o.chain[j][3]
+\* the typed reference clause, shape by shape, against the isinstance checks of the real typed calls
+OracleTypedCalls(o) ==
+    \A j \in 1..Len(o.tc) : RefContravariantAtShape(o.case, Shape(o.tc[j])) = o.tc[j][3]
+OracleTypedCover(o) ==      \* ... and they cover exactly the shapes both functions bind
+    Len(o.tc) = 0 \/ {Shape(o.tc[j]) : j \in 1..Len(o.tc)} = RealBound(o.fb) \cap RealBound(o.gb)
 
 StepOracle(o) ==
     IF ~OracleShapes(o) THEN Say(o.tid, "oracle:call-shape-universe")
@@ -39,6 +47,7 @@ StepOracle(o) ==
     ELSE IF ~OracleBinds(o, o.case.act, o.gb) THEN Say(o.tid, "oracle:actual-binds")
     ELSE IF ~(OracleTargets(o.case.exp, o.fb) /\ OracleTargets(o.case.act, o.gb)) THEN Say(o.tid, "oracle:targets")
     ELSE IF ~OracleChain(o) THEN Say(o.tid, "oracle:type-chain")
+    ELSE IF ~(OracleTypedCalls(o) /\ OracleTypedCover(o)) THEN Say(o.tid, "oracle:typed-calls")
     ELSE TRUE
 
 Judge(o, v, tag) ==
